@@ -1309,3 +1309,148 @@ def r8(cx):
         if not perm:
             cx.violation(root, 'accepts-non-executable', '%s::is_executable_file does not test any execute permission' % short,
                          loc=F.logical(root)[0].loc(F.logical(root)[0].d))
+
+
+@RS.rule('C19.R9', 'K-TABLE', 'the simulated fork inherits exactly what fork(2) inherits (ids, descriptors, umask, cwd, dispositions, mask, limits)')
+def r9(cx):
+    from rules.C08 import r7 as c08_r7
+    c08_r7(cx)
+
+
+@RS.rule('C19.R10', 'K-PASS', 'the simulated pipe() allocates nothing when it fails: if the second descriptor cannot be allocated (EMFILE) the '
+         'first one is released, as pipe(2) does')
+def r10(cx):
+    F = cx.F
+    root = '<yash_env::system::r#virtual::VirtualSystem as yash_env::system::io::Pipe>::pipe'
+    bodies = F.logical(root)
+    cx.require(bodies, 'impl Pipe for VirtualSystem not found')
+    main = [b for b in bodies if b.fn == root][0]
+    cx.fn(main.fn)
+    du = Q.DefUse(main)
+    opens = Q.find_calls(main, ['yash_env::system::r#virtual::process::Process::open_fd'])
+    cx.require(len(opens) == 2, 'expected two Process::open_fd calls in the simulated pipe(), found %d' % len(opens))
+    opens.sort(key=lambda x: 0 if all(main.dominates(x[0], y[0]) for y in opens) else 1)
+    (fb, ft), (sb, st) = opens
+    released = False
+    how = 'not released'
+    # (a) a closure given to map_err / or_else / inspect_err on the second result closes the first descriptor
+    for ub, ut in main.calls():
+        if Q.callee_is(ut, [re.compile(r'^core::result::Result::<T, E>::(map_err|or_else|inspect_err)$')]) and \
+                Q.value_source(main, du, ut['a'][0]) is st:
+            clo = du.origin(ut['a'][1])
+            cb = F.bodies.get(clo['rv'].get('def')) if clo['k'] == 'agg' else None
+            if cb is not None and Q.find_calls(cb, ['yash_env::system::r#virtual::process::Process::close_fd']):
+                released, how = True, 'in the error closure of %s' % pp.callee(ut).split('::')[-1]
+                cx.fn(cb.fn)
+    # (b) or in the function itself, after the second allocation, off the success path
+    if not released:
+        oks = {blk for blk, j, s in Q.find_aggregates(main, 'core::result::Result', 'Ok') if s['lhs']['l'] == 0}
+        for cb2, ct in Q.find_calls(main, ['yash_env::system::r#virtual::process::Process::close_fd']):
+            if main.dominates(sb, cb2) and not any(main.dominates(cb2, o) for o in oks):
+                released, how = True, 'on the failure path at %s' % main.loc(ct)
+    cx.site('%s: first descriptor allocated at %s, second at %s; first released when the second fails: %s' % (main.fn, main.loc(ft), main.loc(st), how))
+    if not released:
+        cx.violation(root, 'first-fd-leaked', 'when the second descriptor of the simulated pipe() cannot be allocated the first one stays open: '
+                     'the call returns EMFILE like pipe(2) but has consumed a descriptor slot, so a following open that succeeds on a real '
+                     'kernel fails in the simulator', loc=main.loc(st))
+
+
+@RS.rule('C19.R6c', 'K-GUARD', 'open(O_CREAT) of the simulated kernel creates the file only: a missing (or non-directory) parent is ENOENT / ENOTDIR '
+         'as on a real kernel, not silently created')
+def r6c(cx):
+    F = cx.F
+    fn = VIRT + '::resolve_file'
+    body = F.body(fn)
+    cx.fn(body.fn)
+    du = Q.DefUse(body)
+    SAVE = 'yash_env::system::r#virtual::file_system::FileSystem::save'
+    GET = 'yash_env::system::r#virtual::file_system::FileSystem::get'
+    saves = Q.find_calls(body, [SAVE])
+    cx.require(saves, 'resolve_file no longer creates the file through FileSystem::save (anchor moved)')
+    # does save() create missing directories on the way?
+    makes_dirs = False
+    for b in F.logical(SAVE) + [x for k, x in F.bodies.items() if k.startswith(SAVE + '::')]:
+        if any(s['rv'].get('variant') == 'Directory' for _, _, s in Q.find_aggregates(b, re.compile(r'::FileBody$'))):
+            makes_dirs = True
+    for sb, st in saves:
+        gets = [(gb, gt) for gb, gt in Q.find_calls(body, [GET]) if body.dominates(gb, sb)]
+        # a lookup of the parent directory: its path argument comes from Path::parent
+        parent_checked = False
+        for gb, gt in gets:
+            src = Q.value_source(body, du, gt['a'][1]) if len(gt['a']) > 1 else None
+            names = ' '.join(str(x) for x in Q.arg_names(body, du, gt))
+            if (src is not None and 'parent' in pp.callee(src)) or 'parent' in names:
+                parent_checked = True
+        cx.site('%s: FileSystem::save at %s; save() creates missing directories: %s; parent directory looked up first: %s'
+                % (body.fn, body.loc(st), makes_dirs, parent_checked))
+        if makes_dirs and not parent_checked:
+            cx.violation(fn, 'create-makes-parents', 'the simulated open(O_CREAT) stores the new file with FileSystem::save, which creates every '
+                         'missing directory on the way (and turns a regular file in the path into a directory), without first requiring the '
+                         'parent directory to exist: `echo x > nodir/file` succeeds in the simulator and fails with ENOENT on a real kernel',
+                         loc=body.loc(st))
+
+
+@RS.rule('C19.R11', 'K-GUARD', 'the simulated wait(-1) answers ECHILD only when no child is left: the any-child selection tells live children from '
+         'already awaited ones (a reaped child must not hide a running one)')
+def r11(cx):
+    F = cx.F
+    fn = 'yash_env::system::r#virtual::SystemState::child_to_wait_for'
+    body = F.body(fn)
+    cx.fn(body.fn)
+    du = Q.DefUse(body)
+    wfn = '<%s as %sprocess::Wait>::wait' % (VIRT, SYS)
+    wb = [b for k, b in F.bodies.items() if k.endswith(' as yash_env::system::process::Wait>::wait') and 'VirtualSystem' in k]
+    cx.require(len(wb) == 1, 'impl Wait for VirtualSystem not found')
+    wb = wb[0]
+    cx.fn(wb.fn)
+    # wait() decides ECHILD from the ONE process child_to_wait_for selected
+    echild = [blk for blk, j, s in wb.stmts() if s['k'] == 'assign' and any('ECHILD' in str(o.get('cdef') or o.get('c') or '')
+              for o in ([s['rv'].get('o')] if s['rv'].get('o') else []) + (s['rv'].get('ops') or []) if isinstance(o, dict))]
+    alive_in_wait = Q.find_calls(wb, ['yash_env::job::ProcessState::is_alive'])
+    changed = Q.find_calls(body, ['yash_env::system::r#virtual::process::Process::state_has_changed'])
+    cx.require(changed, 'child_to_wait_for no longer prefers a child whose state has changed (anchor moved)')
+    alive = Q.find_calls(body, ['yash_env::job::ProcessState::is_alive', 'yash_env::job::ProcessState::is_stopped'])
+    discr = [u for u in body.live_blocks() if (lambda ec: ec and ec[0]['k'] == 'discr' and 'ProcessState' in (ec[0].get('ty') or ''))(Q.edge_condition(F, body, du, u))]
+    cx.site('%s: any-child selection tests state_has_changed x%d, liveness x%d; wait() derives ECHILD from the selected child (is_alive x%d)'
+            % (body.fn, len(changed), len(alive) + len(discr), len(alive_in_wait)))
+    if alive_in_wait and not alive and not discr:
+        cx.violation(fn, 'selection-ignores-liveness', 'for wait(-1) the simulated kernel picks the last child in pid order when no child has '
+                     'changed state, without looking whether it is alive; wait() then answers ECHILD if that child was already awaited although '
+                     'an earlier child is still running: `wait` returns at once in the simulator where a real kernel keeps waiting',
+                     loc=body.loc(changed[0][1]))
+
+
+@RS.rule('C19.R12', 'K-GUARD', 'a signal sent to a terminated (not yet awaited) simulated process has no effect, as on a real kernel: every state '
+         'change made by raise_signal is behind a test that the process has not terminated')
+def r12(cx):
+    F = cx.F
+    P = 'yash_env::system::r#virtual::process::Process::'
+    body = F.body(P + 'raise_signal')
+    cx.fn(body.fn)
+    du = Q.DefUse(body)
+    sets = Q.find_calls(body, [P + 'set_state'])
+    delivers = Q.find_calls(body, [P + 'deliver_signal'])
+    cx.require(sets or delivers, 'raise_signal neither sets the process state nor delivers the signal (anchor moved)')
+
+    def is_termination_test(org, depth=2):
+        if org['k'] == 'call' and Q.callee_is(org['t'], ['yash_env::job::ProcessState::is_alive', 'yash_env::job::ProcessResult::is_stopped',
+                                                         'yash_env::job::ProcessState::is_stopped']):
+            return True
+        if org['k'] == 'discr' and ('ProcessState' in (org.get('ty') or '') or 'ProcessResult' in (org.get('ty') or '')):
+            return True
+        if org['k'] == 'place' and depth and not org['pl'].get('p'):
+            # a materialised `matches!(..)`: what decides the value of the flag
+            for blk, idx, node in du.defs.get(org['pl']['l'], []):
+                for o2, lab2, e2 in Q.implied_conditions(F, body, du, blk):
+                    if is_termination_test(o2, depth - 1):
+                        return True
+        return False
+
+    for blk, t in sets + delivers:
+        guarded = any(is_termination_test(org) for org, lab, e in Q.implied_conditions(F, body, du, blk))
+        cx.site('%s: %s at %s behind a "not terminated" test: %s' % (body.fn, pp.callee(t).split('::')[-1], body.loc(t), guarded))
+        if not guarded:
+            cx.violation(P + 'raise_signal', 'signal-affects-terminated:%s' % pp.callee(t).split('::')[-1], 'raise_signal changes the state of the '
+                         'target without testing that it has not terminated yet: SIGCONT puts an exited child back to Running and SIGTERM / '
+                         'SIGKILL replace its exit status, so `wait` reports 143 (or never returns) in the simulator where a real kernel '
+                         'ignores signals sent to a zombie and reports the true exit status', loc=body.loc(t))
